@@ -3,7 +3,6 @@ package rpc
 //zz:rt
 
 import (
-	"bufio"
 	"errors"
 	"io"
 	"net"
@@ -72,9 +71,8 @@ func zzConnPair() (*zzConn, *zzConn) {
 	return &zzConn{in: a, out: b}, &zzConn{in: b, out: a}
 }
 
-func zzWire(c *zzConn) *Wire {
-	return &Wire{conn: c, writer: bufio.NewWriterSize(c, 64), reader: c}
-}
+// the wire exactly as the code under test builds it (buffered reader and writer)
+func zzWire(c *zzConn) *Wire { return NewWire(c) }
 
 // zzClient: what NewClient builds, over a harness connection.
 func zzClient(c *zzConn, closeChan chan struct{}) *Client {
